@@ -21,6 +21,8 @@ def observe(cfg, scitype, origin=0, fhvariant=0):
     stubs.reset(tag)
 
     def yser(lo, hi):
+        if fhvariant % 4 == 1:      # count data: integer dtype
+            return pd.Series([1000 + t for t in range(lo, hi)], index=pd.RangeIndex(lo + origin, hi + origin), dtype="int64")
         return pd.Series([1000.0 + t for t in range(lo, hi)], index=pd.RangeIndex(lo + origin, hi + origin))
 
     def xfr(lo, hi):
@@ -29,9 +31,20 @@ def observe(cfg, scitype, origin=0, fhvariant=0):
         return pd.DataFrame({"x%d" % c: [1000.0 * (c + 2) + t for t in range(lo, hi)] for c in range(1, nx + 1)},
                             index=pd.RangeIndex(lo + origin, hi + origin))
     try:
-        f = make_reduction(stubs.RecordingRegressor(tag=tag), strategy=cfg["strategy"], window_length=w,
-                           scitype=scitype)
         fharg = [fh, np.array(fh), ForecastingHorizon(fh)][fhvariant % 3]
+        if cfg.get("pre"):
+            # the same object was fitted before with another window length (and then re-parameterised)
+            f = make_reduction(stubs.RecordingRegressor(tag=tag, frac=0.25), strategy=cfg["strategy"],
+                               window_length=cfg["pre"], scitype=scitype)
+            try:
+                f.fit(yser(0, n), X=xfr(0, n), fh=fharg)
+            except REJECT:
+                pass
+            f.set_params(window_length=w)
+            stubs.reset(tag)
+        else:
+            f = make_reduction(stubs.RecordingRegressor(tag=tag, frac=0.25), strategy=cfg["strategy"], window_length=w,
+                               scitype=scitype)
         f.fit(yser(0, n), X=xfr(0, n), fh=fharg)
         if upd:
             f.update(yser(n, n + upd), X=xfr(n, n + upd), update_params=False)
@@ -54,6 +67,8 @@ def observe(cfg, scitype, origin=0, fhvariant=0):
     for e in fits + preds:
         if e["ndim"] != want_ndim or (want_ndim == 3 and e["shape"][1] != 1 + nx) or len(e["X"]) != e["shape"][0]:
             o["crash"] = "container shape %s for scitype %s" % (e["shape"], scitype)
+    if hasattr(f.estimator, "ydim_"):
+        o["crash"] = "the regressor handed to make_reduction was fitted in place (every strategy fits clones)"
     if any(len(ints(e["X"])) != 1 for e in preds):
         o["crash"] = "predict called with several rows"
     return o
@@ -68,7 +83,8 @@ def random_cfg(rng, big):
     if rng.random() < 0.85:
         n = max(n, w + fh[-1] + rng.randint(0, 3))
     return {"strategy": strategy, "n": n, "w": w, "fh": fh,
-            "nx": 0 if strategy == "dirrec" else rng.choice([0, 0, 1, 2]), "upd": rng.choice([0, 0, 1, 3])}
+            "nx": 0 if strategy == "dirrec" else rng.choice([0, 0, 1, 2]), "upd": rng.choice([0, 0, 1, 3]),
+            "pre": rng.choice([0, 0, rng.randint(1, 20)])}
 
 
 def run(ctx):
